@@ -93,26 +93,32 @@ Definition scroll_ok (fh : Z) (op : pop) (ev : list event) : bool :=
 Definition expected_obs (p : panel) (o : orient) (sl : bool) : obs :=
   (match rotn o with D0 => 0 | D90 => 1 | D180 => 2 | D270 => 3 end, mir o, lw_of p o, lh_of p o, sl, true).
 
+Definition is_if_err (r : res) : bool := match r with RErr (EIf _) => true | _ => false end.
+
 Definition walk_op (enc : Z -> list Z) (p : panel) (opt : opts) (s : wstate) (x : (Z * pop) * opres) : wstate :=
-  let '((_, op), (r, ev, ob)) := x in
+  let '((kf, op), (r, ev, ob)) := x in
   let ok := res_beq r ROk in
-  let k' := ctl_run (ws_ctl s) ev in
+  (* a call with an injected fault may fail with an interface error; its failing Interface call is taken as not
+     received by the panel *)
+  let ev_seen := if ok then ev else removelast ev in
+  let k' := ctl_run (ws_ctl s) ev_seen in
   let o' := if ok then spec_op_orient (ws_o s) op else ws_o s in
   let sl' := if ok then match op with PSleep => true | PWake => false | _ => ws_sleeping s end else ws_sleeping s in
   let exp := spec_op_writes_fast enc p (ws_o s) op in
   {| ws_ctl := k'; ws_o := o'; ws_sleeping := sl';
-     ws_exp_rev := rev_append exp (ws_exp_rev s);
-     ws_res := ws_res s && ok;
-     ws_fr := ws_fr s && (if is_draw op then framing_ok ev else true);
+     (* after a failed call the expected history is re-synchronised with what the panel received *)
+     ws_exp_rev := if ok then rev_append exp (ws_exp_rev s) else k_wrev k';
+     ws_res := ws_res s && (if kf <? 0 then ok else ok || is_if_err r);
+     ws_fr := ws_fr s && (if is_draw op && ok then framing_ok ev else true);
      ws_obs := ws_obs s && obs_eqb ob (expected_obs p o' sl');
      ws_mad := ws_mad s && (k_madctl k' =? spec_madctl (o_bgr opt) o' (o_btt opt) (o_rtl opt));
-     ws_onew := ws_onew s && (if is_fill op then
+     ws_onew := ws_onew s && (if is_fill op && ok then
                                  let n := count_ramwr ev in
                                  if fill_visible p (ws_o s) op then n =? 1 else n =? 0
                                else true);
      ws_nd := ws_nd s && (if is_draw op then true else (count_ramwr ev =? 0) && negb (existsb is_pix ev));
      ws_slm := ws_slm s && Bool.eqb (obs_sleeping ob) (k_asleep k');
-     ws_sld := ws_sld s && sleep_delay_ok ev;
+     ws_sld := ws_sld s && (if ok then sleep_delay_ok ev else true);
      ws_scr := ws_scr s && (if ok then scroll_ok (k_fh (ws_ctl s)) op ev else true) |}.
 
 Definition bad_verdict : verdict :=
